@@ -29,7 +29,7 @@ def tag_overtaken(rec, violations, rules):
 
 
 DISPLACED_CLOSE_KEY = "clean-up awaited during a forceful close that a privileged child failure displaced"
-PRIVILEGED = ("SystemExit", "KeyboardInterrupt", "AssertionError", "ProgAssertion")
+PRIVILEGED = ("SystemExit", "KeyboardInterrupt", "AssertionError", "ProgAssertion", "ProgAssertionZ")
 
 
 def displaced_close(rec):
